@@ -153,7 +153,17 @@ Definition all_same_lists (l : list (list Z)) : bool :=
 (* codes: 1 result classes differ from the model; 2 epoch records; 3 inflation schedule / minted supply;
           4 coinswap projection; 5 csr projection; 6 parameters; 7 halted-ness;
           10 AppHash differs between replicas; 11 transaction results differ between replicas;
-          12 exported genesis differs between replicas *)
+          12 exported genesis differs between replicas;
+          13 supply accounting (the equation of Proofs/ChainSupply.v evaluated on the IMPLEMENTATION's
+             observations): observed acanto supply after the block - observed supply before =
+             mint events - burn events, where the events are the contribution formulas of Model/Chain.v
+             ([r_minted], [r_burned]: provision minted per due epoch end; fee - csr fee / whole fee per
+             successful CSR hook; burned part of a creation fee per created pool) evaluated on the
+             observed pre-state and the observed receipts -- anything else that moves the supply fires it *)
+Definition supply_accounting_ok (pre post : cobs) (res : block_result) : bool :=
+  Inflation.st_supply (ob_infl post) - Inflation.st_supply (ob_infl pre) =?
+  r_minted res - Inflation.zsum (r_burned res).
+
 Fixpoint check_blocks (c i : Z) (k : chain_case) (t : Z) (o : cobs) (bs : list block_obs) : list diff :=
   match bs with
   | [] => []
@@ -167,6 +177,7 @@ Fixpoint check_blocks (c i : Z) (k : chain_case) (t : Z) (o : cobs) (bs : list b
       report (all_same_lists (bo_results b)) c i 11 ++
       report (all_same (bo_export b)) c i 12 ++
       report (negb (r_halted res)) c i 7 ++
+      report (r_halted res || supply_accounting_ok o (bo_post b) res) c i 13 ++
       (if r_halted res then [] else
          report (bools_eqb (r_codes res) (bo_codes b)) c i 1 ++
          report (list_eqb epoch_eqb (c_epochs m) (ob_epochs (bo_post b))) c i 2 ++
